@@ -857,5 +857,13 @@ End LexWf.
 
 (* an enum value is in the domain of C11 when its term is (stamps are arbitrary; the numbers are
    printed by f64's Display, assumed to yield digit-and-dot strings for values in [0,1]) *)
+(* the numbers an enum value prints *)
+Definition narsese_floats {F} (v : narsese F) : list F :=
+  match v with
+  | NTerm _ => []
+  | NSentence s => match s_truth s with Some t => truth_list t | None => [] end
+  | NTask k => match s_truth (fst k) with Some t => truth_list t | None => [] end ++ budget_list (snd k)
+  end.
+
 Definition narsese_ok_readme {F} (ucls : uclass -> N -> bool) (v : narsese F) : bool :=
   term_ok_readme ucls (match v with NTerm t => t | NSentence s => s_term s | NTask k => s_term (fst k) end).
